@@ -133,7 +133,9 @@ def random_history(rng, n, prof_ge339):
     ka_small = [0, 1, 127, 128, 255, 256, 16383, 16384, 2 ** 31 - 1]
     ka_long = [-2 ** 63, -1, 2 ** 63 - 1, 2 ** 32 - 1, 2 ** 32, -2 ** 31]
     h = []
-    tid = 1
+    tids = [0, 1, 127, 128, 16383, 16384, 2 ** 21 - 1, 2 ** 21, 2 ** 31 - 1]
+    rng.shuffle(tids)
+    tid = 0
     for i in range(n):
         r = rng.random()
         if r < 0.45:
@@ -141,8 +143,8 @@ def random_history(rng, n, prof_ge339):
             v = rng.choice(pool) if rng.random() < 0.5 else (rng.getrandbits(62) if prof_ge339 else rng.getrandbits(30))
             h.append(('ka', v))
         elif r < 0.6:
-            h.append(('pl', tid))
-            tid += rng.choice([1, 1, 100, 20000])
+            h.append(('pl', tids[tid % len(tids)] if tid < len(tids) else rng.randint(0, 2 ** 31 - 1)))
+            tid += 1
         elif r < 0.8:
             h.append(('unk', 0))
         else:
@@ -173,13 +175,15 @@ def run(chk):
     all_traces = []
     ka_map = {1: 300, 2: 2 ** 31 - 1}
     for i, row in enumerate(rows):
+        pl_map = {7: [0, 7, 128, 2 ** 31 - 1][i % 4]}
+        ka_map = {1: [300, 0][i % 2], 2: 2 ** 31 - 1}
         version = rng.choice(tp_versions if row['tp'] else old_versions)
         hist = []
         for p in row['script']:
             if p[0] == 'ka':
                 hist.append(('ka', ka_map[p[1]]))
             elif p[0] == 'pl':
-                hist.append(('pl', p[1]))
+                hist.append(('pl', pl_map[p[1]]))
             elif p[0] == 'disc':
                 hist.append(('disc', 0))
             else:
@@ -194,9 +198,9 @@ def run(chk):
             if w[0] == 'ka':
                 exp.append(['ka', key64(ka_map[w[1]])])
             elif w[0] == 'tc':
-                exp.append(['tc', [w[1]]])
+                exp.append(['tc', [pl_map[w[1]]]])
             else:
-                exp.append(['pos', concretise(prof, rng, 'pl', w[1])[1]])
+                exp.append(['pos', concretise(prof, rng, 'pl', pl_map[w[1]])[1]])
         got = [e['p'] for e in tr['ev'] if e['k'] == 'c2s']
         exits = sum(1 for e in tr['ev'] if e['k'] == 'exit')
         errs = [e for e in run_.trace if e['k'] == 'error']
